@@ -126,9 +126,8 @@ def regression_messages(s):
 
 
 def recursive_classes(s):
-    """classes from which a cycle of plain (non-oneof) message fields is reachable: materialising their defaults never ends"""
-    edges = {i: {f.elem.ref for f in c.fields if f.card == "plain" and f.elem.kind == "msg" and f.group is None}
-             for i, c in enumerate(s.classes)}
+    """classes from which a cycle of message-typed fields is reachable: materialising the defaults there never ends"""
+    edges = {i: {f.elem.ref for f in c.fields if f.elem.kind == "msg"} for i, c in enumerate(s.classes)}
 
     def reach(i):
         seen, todo = set(), list(edges[i])
